@@ -120,6 +120,15 @@ pub fn replay(cases: &str, verdicts: &str) {
         let sub = |e: &[f64]| -> Vec<f64> { (0..x.len()).flat_map(|i| e[i * y.len()..i * y.len() + x.len()].to_vec()).collect() };
         judge_gram(&mut v, "RQ", &format!("{} equal-size-sets", class), &c, gram_forms(&rq, &x, yq), &sub(&e_rq), x.len(), x.len(), var);
         judge_gram(&mut v, "RBF", &format!("{} equal-size-sets", class), &c, gram_forms(&rbf, &x, yq), &sub(&e_rbf), x.len(), x.len(), var);
+        // every leading sub-rectangle: the first kx points of X against the first ky points of Y - a single point against a set
+        // (either side) is a column / a row of the table, not a special case
+        for kx in 1..=x.len() { for ky in 1..=y.len() {
+            if (kx, ky) == (x.len(), y.len()) || (kx > 1 && ky > 1 && kx != ky + 1 && !(kx == x.len() && ky == 2)) { continue; }
+            let subr = |e: &[f64]| -> Vec<f64> { (0..kx).flat_map(|i| e[i * y.len()..i * y.len() + ky].to_vec()).collect() };
+            let cl = format!("{} {}", class, if kx == 1 && ky == 1 { "point-vs-point" } else if ky == 1 { "set-vs-point" } else if kx == 1 { "point-vs-set" } else { "sub-rectangle" });
+            judge_gram(&mut v, "RQ", &cl, &c, gram_forms(&rq, &x[..kx], &y[..ky]), &subr(&e_rq), kx, ky, var);
+            judge_gram(&mut v, "RBF", &cl, &c, gram_forms(&rbf, &x[..kx], &y[..ky]), &subr(&e_rbf), kx, ky, var);
+        } }
         // a sequence of calls on permuted point sets (no state may survive between calls): reversed first argument = reversed rows
         {
             let xr: Vec<f64> = x.iter().rev().cloned().collect();
